@@ -2,6 +2,7 @@
 (* Real stdio_client runs with real child processes and the real clock.  Events:              *)
 (*   Entered | EnterRaised(exc)                                                               *)
 (*   ExitBegin(path, moment)  Terminate  Kill  Waited(dtBucket)   (process proxy)             *)
+(*   Broke(exc): the caller's enclosing task group could not be left after the exit           *)
 (*   Returned(dtBucket: tenths of a second)  ChildState(s)  FdDelta(n)  Pending(kind)         *)
 (* Times are bucketed to tenths of a second; Slack is the scheduling slack in tenths.         *)
 (* TLC checks the shutdown protocol itself on StdioLifecycle (with and without the            *)
@@ -22,7 +23,7 @@ TInit ==
   /\ tid \in 1..NT /\ l = 1
   /\ beh = Traces[tid].beh /\ path = Traces[tid].path
   /\ phase = "body" /\ child = "running" /\ elapsed = 0 /\ termSent = FALSE /\ killSent = FALSE
-  /\ obs = [entered |-> "no", returned |-> FALSE, dt |-> 0, states |-> {}, fd |-> 0, pending |-> "none", nterm |-> 0, nkill |-> 0, killAfterWait |-> TRUE]
+  /\ obs = [entered |-> "no", returned |-> FALSE, dt |-> 0, states |-> {}, fd |-> 0, pending |-> "none", nterm |-> 0, nkill |-> 0, killAfterWait |-> TRUE, broke |-> FALSE]
 
 Keep == UNCHANGED vars
 TNext ==
@@ -34,6 +35,7 @@ TNext ==
        /\ obs' = [obs EXCEPT !.nkill = @ + 1, !.killAfterWait = @ /\ obs.nterm >= 1 /\ l > 1 /\ Evs[l - 1].e = "Waited" /\ Evs[l - 1].dt >= 9]
   \/ Is("Waited") /\ Consume /\ Keep /\ obs' = obs
   \/ Is("Hung") /\ Consume /\ Keep /\ obs' = obs          \* the exit never returned (watchdog of the harness)
+  \/ Is("Broke") /\ Consume /\ Keep /\ obs' = [obs EXCEPT !.broke = TRUE]   \* the caller's own scopes were left unusable
   \/ Is("Returned") /\ Consume /\ Keep /\ obs' = [obs EXCEPT !.returned = TRUE, !.dt = Ev.dt]
   \/ Is("ChildState") /\ Consume /\ Keep /\ obs' = [obs EXCEPT !.states = @ \cup {Ev.s}]
   \/ Is("FdDelta") /\ Consume /\ Keep /\ obs' = [obs EXCEPT !.fd = Ev.n]
@@ -44,6 +46,7 @@ Unstartable == Tr.beh = "unstartable"
 Clauses == <<
   <<"UnstartableRaises", Unstartable <=> obs.entered = "raised">>,
   <<"Returns", ~Unstartable => obs.returned>>,
+  <<"CallerScopesIntact", ~obs.broke>>,
   <<"NoChildLeftBehind", obs.states \subseteq {"gone"}>>,
   <<"BoundedExit", obs.dt <= 20 + Slack>>,
   <<"NoFdLeft", obs.fd <= 0>>,
